@@ -42,6 +42,7 @@ Definition step_ev (s : est) (w : who) : option event :=
            | EHalf => ev_ kCAS cellState c_streamOpened c_streamHalfClosed (b2z (st s =? c_streamOpened))
            | EChk => ev_ kR cellState (st s) 0 0
            | ECas => ev_ kCAS cellInproc 0 1 (b2z (inproc s =? 0))
+           | EWgAdd => ev_ kMark cellMark 14 0 0   (* harness scheduling point in front of wg.Add(1) *)
            | _ => None
            end
   | WGor i => match nth_error (gors s) i with
@@ -58,7 +59,11 @@ Definition step_ev (s : est) (w : who) : option event :=
                           end
               end
   | WClo i => match nth_error (clos s) i with None => None | Some c => cev s c end
-  | WSet => match spc s with SCas => ev_ kCAS cellInproc 0 1 (b2z (inproc s =? 0)) | _ => None end
+  | WSet => match spc s with
+            | SCas => ev_ kCAS cellInproc 0 1 (b2z (inproc s =? 0))
+            | SWgAdd => ev_ kMark cellMark 14 0 0
+            | _ => None
+            end
   | WUser i => match nth_error (users s) i with
                | None => None
                | Some u => match upc u with
